@@ -72,6 +72,16 @@ class MixedDirected(Mixin, SubDirected):
     pass
 
 
+def _twin():
+    class SubVertex(Vertex):
+        """Another class that merely shares its __name__ with the module-level SubVertex."""
+
+    return SubVertex
+
+
+SubVertexTwin = _twin()
+
+
 class OddLink(TwoEndedLink):
     """A two-ended link that is neither directed nor undirected ('unknown' class)."""
 
@@ -91,7 +101,7 @@ KIND = {
     SubOdd: "X",
     MixedDirected: "D",
 }
-VERTEX_CLASSES = [Vertex, SubVertex, FalsyVertex, EmptyLenVertex, MixedVertex]
+VERTEX_CLASSES = [Vertex, SubVertex, FalsyVertex, EmptyLenVertex, MixedVertex, SubVertexTwin]
 
 
 def kind_of(link):
